@@ -218,6 +218,7 @@ func c16Wire(w *explore.Worker, c c16Case, fail func(clause, detail string)) {
 		wd := world.New(world.Cfg{Board: "board text", Accounts: []world.Acct{
 			{Login: "guest", Name: "Guest", Access: world.Bits()},
 			{Login: "u", Name: "U", Password: "pw", Access: b},
+			{Login: "adm", Name: "adm", Password: "ap", Access: world.AllAccess},
 		}})
 		defer wd.Close()
 		cl, rep := wd.Connect("10.0.0.1:1001", "u", "pw", "uu")
@@ -270,6 +271,39 @@ func c16Wire(w *explore.Worker, c c16Case, fail func(clause, detail string)) {
 				fail(fmt.Sprintf("decision-granted-although-bit-%d-not-held", p.bit), fmt.Sprint(r))
 			}
 			obs = append(obs, fmt.Sprintf("%d:%v", p.bit, denied))
+		}
+		// an administrator edits the account while the session is live: the session is told the new bitmap
+		adm, ra := wd.Connect("10.0.0.9:1009", "adm", "ap", "adm")
+		if ra == nil || ra.Err != 0 {
+			fail("admin-login-failed", fmt.Sprint(ra))
+			return
+		}
+		nb := b
+		for i := range nb {
+			nb[i] ^= 0xA5 // flips a fixed pattern of bits: every defined privilege changes for some bitmap of the enumeration
+		}
+		nb = ref.And(nb, ref.DefinedMask)
+		cl.New()
+		sid := adm.Req(ref.TSetUser, ref.F(ref.FUserLogin, obf("u")), ref.FS(ref.FUserName, "U"), ref.F(ref.FUserPassword, []byte{0}), ref.F(ref.FUserAccess, nb[:]))
+		world.Quiet()
+		if r := adm.Reply(sid); r == nil || r.Err != 0 {
+			fail("set-user-refused", fmt.Sprint(r))
+			return
+		}
+		told := false
+		for _, t := range cl.New() {
+			if t.Type == ref.TUserAccess {
+				told = true
+				a2, _ := t.Get(ref.FUserAccess)
+				var g2 [8]byte
+				copy(g2[:], a2)
+				if len(a2) != 8 || ref.And(g2, ref.DefinedMask) != nb {
+					fail("access-notification-after-edit-differs-from-new-bitmap", fmt.Sprintf("live session was sent %x, the account now holds %s", a2, bitsString(nb)))
+				}
+			}
+		}
+		if !told {
+			fail("live-session-not-told-its-new-access", "")
 		}
 		w.Outcome("wire " + bitsString(b) + strings.Join(obs, ","))
 	})
